@@ -5,6 +5,7 @@ import ast
 import hashlib
 import json
 import os
+import tempfile
 import time
 from dataclasses import dataclass, field
 from typing import Any
@@ -152,7 +153,9 @@ class Run:
 
         replay_paths = []
         for f in violations:
-            path = write_replay(f, os.path.join(self.project.repo, ".octacheck-replays") if self.no_evidence else None)
+            # scratch runs (--no-evidence) keep their replays out of /verif; never write into the repository under test itself
+            scratch_dir = os.path.join(self.project.repo, ".octacheck-replays") if os.path.realpath(self.project.repo) != "/repo" else os.path.join(tempfile.gettempdir(), "octacheck-replays")
+            path = write_replay(f, scratch_dir if self.no_evidence else None)
             replay_paths.append(path)
             out.append(f"VIOLATION property={self.prop} replay={path}")
             out.append(f"  {f.module}:{f.line} in {f.function} rule={f.rule}")
